@@ -292,3 +292,8 @@ def run(rep, program: Program, tier: str) -> None:
     from . import c09
 
     rep.isolate(c09.rule_r6, rep, program, prop=PROP, rule="R5")
+    # forward and backward steps must use the same flow maps: nothing derived from the metric may be remembered on the
+    # system across a change of the metric (a value cached for +dt and recomputed for -dt breaks the round trip) (shared with C07-R5)
+    from . import c07
+
+    rep.isolate(c07.rule_r5, rep, program, prop=PROP, rule="R6")
